@@ -45,3 +45,17 @@ Theorem C02_read_projects : forall f sid n oid s x w f' res x' o,
   exists s', get_stream (f_ep f') oid = Some s' /\ R_view x' w s' /\ same_S s s' /\ st_id s' = st_id s /\
   exists added, F.wrs x' = F.wrs x ++ added /\ f_out f' = f_out f ++ map (ackwire (st_id s)) added.
 Proof. exact read_projects. Qed.
+
+(* ---- the pair model restricted to one established flow is simulated by the two flow models (Mux/Simulate.v):
+   the flow theorems above are theorems about the pair model for every single-flow script ---- *)
+From PV Require Import Mux.Simulate.
+
+Theorem C02_pair_simulated_by_flows : forall id ls s fs, Rel id s fs -> Forall lab_ok ls ->
+  fst (pair_results s ls) = fst (flow_results fs ls) /\
+  Rel id (snd (pair_results s ls)) (snd (flow_results fs ls)).
+Proof. exact sim_run. Qed.
+
+Theorem C02_pair_step_simulated : forall id s fs l, Rel id s fs -> lab_ok l ->
+  o_res (snd (step s (to_sys l))) = snd (FD.fstep_l fs l) /\
+  Rel id (fst (step s (to_sys l))) (fst (FD.fstep_l fs l)).
+Proof. exact sim_step. Qed.
